@@ -162,6 +162,65 @@ def canonical_templates(r):
     ]
 
 
+# secp256k1 (only to make VALID public keys: a key parser that normalises keys behaves differently on valid points)
+_P = 2**256 - 2**32 - 977
+_G = (0x79BE667EF9DCBBAC55A06295CE870B07029BFCDB2DCE28D959F2815B16F81798, 0x483ADA7726A3C4655DA4FBFC0E1108A8FD17B448A68554199C47D08FFB10D4B8)
+
+
+def _ec_add(a, b):
+    if a is None:
+        return b
+    if b is None:
+        return a
+    if a[0] == b[0] and (a[1] + b[1]) % _P == 0:
+        return None
+    if a == b:
+        lam = 3 * a[0] * a[0] * pow(2 * a[1], -1, _P) % _P
+    else:
+        lam = (b[1] - a[1]) * pow(b[0] - a[0], -1, _P) % _P
+    x = (lam * lam - a[0] - b[0]) % _P
+    return (x, (lam * (a[0] - x) - a[1]) % _P)
+
+
+def ec_point(k):
+    acc, q = None, _G
+    while k:
+        if k & 1:
+            acc = _ec_add(acc, q)
+        q = _ec_add(q, q)
+        k >>= 1
+    return acc
+
+
+def curve_keys(r, n=6):
+    """valid secp256k1 public keys in every encoding a script may carry: compressed (02/03), uncompressed (04), hybrid (06/07, with the
+    right and with the wrong parity), plus the same x with a y that is off the curve"""
+    out = []
+    for k in [1, 2, 3] + [r.randrange(1, 2**200) for _ in range(n)]:
+        x, y = ec_point(k)
+        xb, yb = x.to_bytes(32, "big"), y.to_bytes(32, "big")
+        out += [("compressed", bytes([2 + (y & 1)]) + xb), ("compressed-wrong-parity", bytes([3 - (y & 1)]) + xb), ("uncompressed", b"\x04" + xb + yb),
+                ("hybrid", bytes([6 + (y & 1)]) + xb + yb), ("hybrid-wrong-parity", bytes([7 - (y & 1)]) + xb + yb), ("off-curve", b"\x04" + xb + ((y + 1) % _P).to_bytes(32, "big")),
+                ("hybrid-off-curve", b"\x06" + xb + ((y + 2) % _P).to_bytes(32, "big"))]
+    return out
+
+
+# scripts with a published meaning, where a constant table or a special case may have crept in (both networks see each one)
+WELL_KNOWN = [
+    ("p2a-anchor", bytes.fromhex("51024e73")),
+    ("p2a-near", bytes.fromhex("51024e74")),
+    ("burn-p2pkh-zero", b"\x76\xa9\x14" + b"\x00" * 20 + b"\x88\xac"),
+    ("burn-p2sh-zero", b"\xa9\x14" + b"\x00" * 20 + b"\x87"),
+    ("p2wpkh-zero", b"\x00\x14" + b"\x00" * 20),
+    ("p2wsh-ones", b"\x00\x20" + b"\xff" * 32),
+    ("p2tr-zero", b"\x51\x20" + b"\x00" * 32),
+    ("v16-max", b"\x60\x28" + b"\xab" * 40),
+    ("op-true", b"\x51"),
+    ("genesis-p2pk", b"\x41" + bytes.fromhex("04678afdb0fe5548271967f1a67130b7105cd6a828e03909a67962e0ea1f61deb649f6bc3f4cef38c4f35504e51ec112de5c384df7ba0b8d578a4c702b6bf11d5f") + b"\xac"),
+    ("witness-commitment", b"\x6a\x24\xaa\x21\xa9\xed" + b"\x11" * 32),
+]
+
+
 def idiom_prefixes(r):
     p = lambda n: push(r, rb(r, n), "d")
     return [
@@ -251,6 +310,12 @@ def boundary(r, exhaustive=False):
         for dl in range(0, 6):
             yield "trunc-data", bytes([op]) + (5).to_bytes(w, "little") + b"abcde"[:dl]
             yield "trunc-data", b"\x6a" + bytes([op]) + (5).to_bytes(w, "little") + b"abcde"[:dl]
+    # keys that ARE points of the curve, in every encoding, as P2PK and inside bare multisig; and scripts with a published meaning
+    for kname, key in curve_keys(r, 4 if not exhaustive else 12):
+        yield "curve-key:" + kname, bytes([len(key)]) + key + b"\xac"
+        yield "curve-key-multisig:" + kname, b"\x51" + bytes([len(key)]) + key + b"\x51\xae"
+    for wname, s in WELL_KNOWN:
+        yield "well-known:" + wname, s
     # templates embedded in larger programs: script idioms of Bitcoin-family coins (Namecoin name operations, CLTV/CSV guards,
     # drops, conditionals) before a complete template, extra tokens after it, two templates back to back.  None of these
     # token sequences IS a template, so none may be typed as one
